@@ -131,7 +131,10 @@ func gen(t *rapid.T) (*scen.Scenario, []string) {
 		cls = append(cls, "directed:hold-after-msgid")
 	}
 	steps = append(steps, scen.Step{Op: "call", Calls: callers})
-	answers, _ := scen.AnswerRounds(s, nil, callers, 0)
+	answers, afeats := scen.AnswerRounds(s, nil, callers, 0)
+	if afeats["repeated-result"] > 0 {
+		cls = append(cls, "server-history:repeated-result")
+	}
 	// interleave server-initiated messages (content-related: odd seq_no; service: even) between the answer steps
 	pushKinds := []scen.PushSpec{
 		{Kind: "pong"}, {Kind: "ack"}, {Kind: "state-info"}, {Kind: "all-info"}, {Kind: "detailed-info"},
